@@ -203,6 +203,31 @@ theorem C13_attach_visible (fuel : Nat) (H : NsHeap) (hr : RefsOK H) (par c : Na
     rw [this, hp, hc]
     exact ⟨fun kv hkv => mergeD_has_parent _ _ kv hkv, fun k v h => mergeD_keeps_own _ _ k v h⟩
 
+/-- … and the value the child sees for a prefix it did not bind itself is the parent's own binding (not an ancestor's, not any
+    other): for parent maps with unique keys (Python dicts) -/
+theorem C13_attach_value (fuel : Nat) (H : NsHeap) (hr : RefsOK H) (par c : Nat)
+    (hac : ∀ k ∈ (withChild H par c).kids c, ¬ Reach (withChild H par c).kids k c)
+    (hnd : (H.nsmapOf par).keys.Nodup) :
+    ∀ kv ∈ H.nsmapOf par, (H.nsmapOf c).has kv.1 = false →
+      ((attachNs (fuel + 1) H par c).nsmapOf c).get? kv.1 = some kv.2 := by
+  intro kv hkv hlack
+  have hunfold : attachNs (fuel + 1) H par c = (if (withChild H par c).nsmapOf par = (withChild H par c).nsmapOf c
+    then (withChild H par c).setNs c ((withChild H par c).ns par)
+    else ((withChild H par c).nsmapOf par).foldl (fun Hc kv =>
+      if (Hc.nsmapOf c).has kv.1 then Hc else addNs (fuel + 1) Hc c kv.1 kv.2 none) (withChild H par c)) := rfl
+  rw [hunfold]
+  have hp : (withChild H par c).nsmapOf par = H.nsmapOf par := rfl
+  have hc : (withChild H par c).nsmapOf c = H.nsmapOf c := rfl
+  by_cases hde : (withChild H par c).nsmapOf par = (withChild H par c).nsmapOf c
+  · rw [hp, hc] at hde
+    have := has_of_mem _ kv hkv
+    rw [hde, hlack] at this
+    cases this
+  · rw [if_neg hde]
+    have := attach_fold_root fuel c (withChild H par c).kids hac ((withChild H par c).nsmapOf par) (withChild H par c) hr rfl
+    rw [this, hp, hc]
+    exact mergeD_parent_value _ _ hnd kv hkv hlack
+
 /-- non-vacuity: the initial heap (every node its own empty map) satisfies the hypothesis -/
 example : RefsOK { kids := fun _ => [], ns := fun a => if a < 3 then a else 0, cell := fun _ => [], next := 3 } := by
   intro m; simp only; split <;> omega
